@@ -411,6 +411,14 @@ def _run(ops, fails):
         exp_refs = exp_refs + want_refs
         spans.append((len(exp_bits), len(exp_refs), aux))
 
+    # every other case reads through a slice taken from the builder itself (Builder.to_slice) while the builder keeps
+    # being used afterwards: what was stored before the snapshot, and nothing else, must be read back
+    alt = None
+    if len(ops) % 2 == 1 and not fails:
+        ok, alt = call(b.to_slice)
+        if not ok:
+            fails.append(Fail(f'to_slice/raises/{exc_sig(alt)}', repr(alt)))
+            alt = None
     ok, cell = call(b.end_cell)
     if not ok:
         fails.append(Fail(f'end_cell/raises/{exc_sig(cell)}', repr(cell)))
@@ -418,9 +426,14 @@ def _run(ops, fails):
     if cell.bits.to01() != exp_bits or len(cell.refs) != len(exp_refs):
         fails.append(Fail('end_cell/bits-differ-from-builder', f'{_clip(cell.bits.to01())} vs {_clip(exp_bits)}'))
         cell = _mk_builder(exp_bits, exp_refs).end_cell()
+    if alt is not None:
+        if len(exp_bits) < 1023:
+            call(lambda: b.store_bits('1'))
+        if len(exp_refs) < 4:
+            call(lambda: b.store_ref(cell))
 
     # ---- load phase
-    s = cell.begin_parse()
+    s = alt if alt is not None else cell.begin_parse()
     off, roff = 0, 0
     for i, op in enumerate(ops):
         kc = kindclass(op, store_side=False)
